@@ -96,6 +96,31 @@ def wide_alphabet(ctx) -> str:
     return ctx.cache["wide"]
 
 
+# white space in the sense of the properties (the hand-written list of coq/theories/Spec/Whitespace.v)
+REF_WS = [9, 10, 11, 12, 13, 28, 29, 30, 31, 32, 133, 160, 5760] + list(range(8192, 8203)) + [8232, 8233, 8239, 8287, 12288]
+# characters people paste between groups and invisible format characters: none of them is white space
+SEPARATORS = "-._/:,;|'" + "\u00ad\u200b\u200c\u200d\u200e\u200f\u2060\ufeff\u180e"
+
+
+def insertion_probes(ctx) -> str:
+    """Characters to insert into valid texts: every code point on which the library's cleaning and the reference
+    white space disagree (empty on an unchanged tree; this directs the search when the whitespace obligation breaks),
+    the reference white space itself, and common separators / invisible characters."""
+    delta = sorted(set(ctx.facts["ws"]) ^ set(REF_WS))
+    return "".join(chr(c) for c in delta[:64]) + "".join(chr(c) for c in REF_WS) + SEPARATORS
+
+
+def insertions(ctx, v: str, chars: str):
+    """v with one of the characters inserted: at the start, at the end, between groups, and at a random place"""
+    rng = ctx.rng
+    for ch in chars:
+        k = rng.choice([0, len(v), 4 if len(v) > 4 else 0, rng.randrange(len(v) + 1)])
+        yield v[:k] + ch + v[k:]
+    if chars:
+        ch = rng.choice(chars)
+        yield ch.join(v[i:i + 4] for i in range(0, len(v), 4))
+
+
 def parse_structure(spec: str):
     out = []
     for n, bang, k in re.findall(r"(\d+)(!)?([nace])", spec):
@@ -185,6 +210,11 @@ def c01_inputs(ctx):
                         yield t[:2] + iso_digits(t[:2], t[4:]) + t[4:], "length-rechecked", True
                     except Exception:  # noqa: BLE001
                         pass
+    # insertions: white space is ignored wherever it stands, nothing else is (separators, invisible characters)
+    probes = insertion_probes(ctx)
+    for cc in (countries(ctx) if not ctx.quick else rng.sample(countries(ctx), 4)):
+        for t in insertions(ctx, valid_iban(ctx, cc), probes):
+            yield t, "insertion", True
     # check-digit aliases: 00/01/99 leave remainder 1 as well and must be rejected
     for cc in (countries(ctx) if not ctx.quick else rng.sample(countries(ctx), 12)):
         for _ in range(400):
@@ -330,6 +360,17 @@ def c04_inputs(ctx):
             if not long:
                 for tail in ("-SS", "GL٠", "G S", "\n\n\n", "...", "gls", "ßßß"):
                     yield v + tail, "trailing", True
+    # insertions: white space is ignored wherever it stands, nothing else is (separators, invisible characters)
+    probes = insertion_probes(ctx)
+    for long in (False, True):
+        for _ in range(2 if ctx.quick else 12):
+            for t in insertions(ctx, random_bic(ctx, long), probes):
+                yield t, "insertion", True
+            # three insertions bring an 8-character BIC to an accepted total length
+            v8 = random_bic(ctx, False)
+            ch = rng.choice(probes)
+            yield v8 + ch * 3, "insertion", True
+            yield ch + v8[:4] + ch + v8[4:] + ch, "insertion", True
     # all 676 two-letter codes
     letters = UPPER
     base = random_bic(ctx, True)
@@ -511,6 +552,33 @@ def rand_dict(rng, depth=3, width=4):
     return d
 
 
+def related_dicts(rng, k):
+    """k documents that are edits of one base document, so that the same key carries a dictionary in one file, a scalar
+    or null in the next and a dictionary again in a third (conflicts random documents almost never produce)"""
+    def mutate(d, depth):
+        out = {}
+        for key, v in d.items():
+            x = rng.random()
+            if x < 0.12:
+                continue                                   # key absent from this file
+            if x < 0.42:
+                if isinstance(v, dict):
+                    out[key] = rng.choice([None, rand_scalar(rng), rand_dict(rng, 1, 3)])
+                else:
+                    out[key] = rand_dict(rng, max(depth - 1, 0), 3) if rng.random() < 0.6 else rand_scalar(rng)
+            elif isinstance(v, dict):
+                out[key] = mutate(v, depth - 1)
+            else:
+                out[key] = v
+        if rng.random() < 0.3:
+            out[rng.choice(KEYS)] = rand_dict(rng, 1, 2) if rng.random() < 0.5 else rand_scalar(rng)
+        return out
+    base = rand_dict(rng, 3, 4)
+    while not any(isinstance(v, dict) for v in base.values()):
+        base = rand_dict(rng, 3, 4)
+    return [mutate(base, 3) for _ in range(k)]
+
+
 def rand_v2(rng):
     src, dst = rng.choice([("bank_codes", "bank_code"), ("codes", "bic"), ("xs", "name")])
     entries = []
@@ -559,6 +627,15 @@ def c18_streams(ctx):
         k = rng.randrange(1, 4)
         files = [(nm, rand_dict(rng)) for nm in rng.sample([x for x in names if "v2" not in x], k)]
         yield registry_case(files, "get-dicts")
+    # several overlays editing the same keys (dictionary -> scalar -> dictionary across three or more files)
+    for _ in range(60 if ctx.quick else 900):
+        k = rng.randrange(2, 6)
+        docs = related_dicts(rng, k)
+        files = list(zip(rng.sample([x for x in names if "v2" not in x and x.endswith(".json")], k), docs))
+        yield registry_case(files, "get-dicts-related")
+    for fixed in ([{"X": {"old": 1}}, {"X": None}, {"X": {"new": 3}}], [{"X": {"a": {"b": 1}}}, {"X": {"a": 0}}, {"X": {"a": {"c": 2}}}],
+                  [{"X": 1}, {"X": {"n": 1}}, {"X": 2}, {"X": {"m": 2}}]):
+        yield registry_case(list(zip(["00.json", "a.json", "generated.json", "overwrite.json"], fixed)), "get-dicts-related")
     for _ in range(30 if ctx.quick else 400):
         files = []
         for nm in rng.sample(names, rng.randrange(1, 4)):
@@ -1111,7 +1188,7 @@ def history_orders(ctx):
             cs = []
         rng.shuffle(cs)
         cases += cs[: (150 if ctx.quick else 2500)]
-    cases += list(c12_targeted(ctx))
+    cases += list(c12_targeted(ctx)) + twin_cases(ctx)
     lines = ["\t".join([c.fn, *c.args]) for c in cases]
     lines = ["history_probe\tbegin"] + lines + ["history_probe\tend"]
     facts_path = os.path.join(os.path.dirname(HERE), "coq", "theories", "Gen", "facts.json")
@@ -1144,6 +1221,38 @@ def history_orders(ctx):
     return {"ok": True, "cases": 2 * len(lines)}
 
 
+def twin_cases(ctx):
+    """Calls whose arguments coincide in part: IBANs of different countries carrying the very same BBAN string (their BBAN
+    objects are equal as strings and hash alike), decomposed one after the other in both orders.  State keyed by part of
+    the identity of an object - a cache on the compact string, say - shows up as a wrong component in the second call."""
+    rng = ctx.rng
+    names = ";".join(enc(x) for x in ctx.facts["components"])
+    groups = {}
+    for cc in countries(ctx):
+        row = ctx.facts["iban_rows"][cc]
+        kinds = "".join(k * n for n, _b, k in parse_structure(row["bban_spec"]))
+        groups.setdefault(kinds, []).append(cc)
+    bylen = {}
+    for cc in countries(ctx):
+        bylen.setdefault(ctx.facts["iban_rows"][cc]["bban_length"], []).append(cc)
+    pairs = []
+    for g in groups.values():
+        if len(g) >= 2:
+            for _ in range(2 if ctx.quick else 6):
+                pairs.append(tuple(rng.sample(g, 2)))
+    for g in bylen.values():
+        if len(g) >= 2:
+            pairs.append(tuple(rng.sample(g, 2)))
+    out = []
+    for c1, c2 in pairs:
+        b = random_bban(ctx, c1)
+        for x, y in ((c1, c2), (c2, c1)):
+            b = random_bban(ctx, c1)
+            for cc in (x, y):
+                out.append(Case("corr", "iban_decomp", [enc(cc + iso_digits(cc, b) + b), names], "twin-bban", True))
+    return out
+
+
 def c15_streams(ctx):
     # one long history inside a single implementation process, every call compared with the (pure) model
     rng = ctx.rng
@@ -1155,7 +1264,7 @@ def c15_streams(ctx):
     # method 88 and other account-dependent position rules: accounts with every third digit, in both orders
     for a in ["0092525253", "0011234560", "0099913003", "0052525259", "0012525259", "0092525253"]:
         cases.append(Case("corr", "algo_validate", [enc("DE:88"), enc(a), "-"], "history-88", True))
-    tail = list(c12_targeted(ctx))
+    tail = list(c12_targeted(ctx)) + twin_cases(ctx)
     rng.shuffle(cases)
     cases += tail
     for c in cases:
